@@ -16,7 +16,18 @@
    endpoint, bursts and mixed bursts of changes, explicit / unsuccessful / last
    responses, one Message object shared by all observers, slow renderer, every
    reaction per notification, duplicates, ICMP errors, shutdown) are validated
-   by TLC against ObserveServerTrace.tla, clause by clause."""
+   by TLC against ObserveServerTrace.tla, clause by clause.
+
+Dimensions added later (all switched by model constants, driver flags of the same meaning): two
+observable resources with counts, state numbers and changes of their own (TwoResources / q); the first
+rendering of a registration suspended beyond EMPTY_ACK_DELAY -- empty ACK, then a SEPARATE first
+response with Observe 0, Reset / time-out of which ends the registration (SlowFirst / fgate, fdelay);
+resources answering unreliably, so that a CON registration gets NON notifications (NonNotif /
+nonrender); a Reset answering a NON notification ends the registration (RstNonEnds; FALSE is a
+known-bad variant TLC must refute, its counterexample runs on the real code); representations of
+three blocks whose notifications carry Observe and Block2, with the further blocks fetched by plain
+GETs on another token (no effect on the registration) or on the registration's own token (a new
+request on that token) while the state changes (Big / big = "app" | "lib")."""
 
 import json
 import os
@@ -27,9 +38,12 @@ import time
 from harness import tlc, MachineryError, runner
 from harness.observeserverdrive import run_all, short
 
+NON_LIFETIME = 145 * 1024      # units; Resets to NON notifications arrive much earlier in every schedule
+
 MC_CFG = """SPECIFICATION Spec
 CONSTANTS
   MaxRetransmit = %(mr)d
+  NonLifetime = 100000
   NObservers = %(nobs)d
   MaxChanges = %(chg)d
   MaxEnv = %(env)d
@@ -41,15 +55,50 @@ CONSTANTS
   RearmBeforeRender = %(rearm)s
   SharedEndpoint = %(shared)s
   BacklogCap = %(cap)d
+  TwoResources = %(two)s
+  SlowFirst = %(sfirst)s
+  EmptyAckDelay = 1
+  NonNotif = %(nonntf)s
+  RstNonEnds = %(rstnon)s
+  Big = %(big)s
 %(extra)s
 """
 INVS = "VIEW View\nINVARIANT NoBad\nINVARIANT CountMatches"
+MC_DEFAULTS = dict(drop="TRUE", slow="FALSE", rearm="TRUE", shared="FALSE", cap=0, two="FALSE", sfirst="FALSE", nonntf="FALSE",
+                   rstnon="TRUE", big="FALSE", extra=INVS)
 
-CAUSES = ["Rst", "Unsuccessful", "Last", "ReRegister", "ConTimeout", "TransportError", "Shutdown"]
+
+def mc_cfg(c, **over):
+    return MC_CFG % dict(MC_DEFAULTS, **dict(c, **over))
+
+
+# exhaustive configurations of the later dimensions (state counts measured; see notes/C08.md)
+T_, F_ = "TRUE", "FALSE"
+QUICK_EXT_CONFS = [
+    dict(mr=1, nobs=1, chg=2, env=2, sil=2, maxt=4, sfirst=T_, slow=T_),            # separate first response, every rendering suspended
+    dict(mr=1, nobs=2, chg=2, env=3, sil=2, maxt=4, two=T_, nonntf=T_),             # two resources, NON notifications to CON registrations, Reset to them
+    dict(mr=1, nobs=1, chg=2, env=3, sil=2, maxt=4, big=T_),                        # Observe + Block2, block fetches
+]
+# (quick tier: three configurations of the later dimensions; the others -- separate first response with two
+# tokens of one endpoint, two resources with CON notifications, NON notifications with a shared endpoint -- run
+# in the thorough tier)
+THOROUGH_EXT_CONFS = [
+    dict(mr=1, nobs=2, chg=1, env=2, sil=2, maxt=4, sfirst=T_, shared=T_),
+    dict(mr=1, nobs=1, chg=2, env=3, sil=2, maxt=4, sfirst=T_),
+    dict(mr=1, nobs=2, chg=2, env=2, sil=2, maxt=4, sfirst=T_, shared=T_, slow=T_),
+    dict(mr=1, nobs=2, chg=2, env=3, sil=2, maxt=4, two=T_),
+    dict(mr=1, nobs=2, chg=3, env=4, sil=2, maxt=4, nonntf=T_, two=T_),
+    dict(mr=1, nobs=2, chg=2, env=4, sil=2, maxt=4, nonntf=T_, shared=T_),
+    dict(mr=1, nobs=2, chg=2, env=3, sil=2, maxt=4, big=T_, shared=T_),
+    dict(mr=1, nobs=1, chg=2, env=3, sil=2, maxt=4, big=T_, sfirst=T_),
+]
+
+CAUSES = ["Rst", "RstNon", "Unsuccessful", "Last", "ReRegister", "ConTimeout", "TransportError", "Shutdown"]
 
 
 # -- model behaviours -> schedules ---------------------------------------------------
-def behaviour_to_schedule(beh, mr, slow=False):
+def behaviour_to_schedule(beh, mr, slow=False, conf=None):
+    conf = conf or {}
     steps = []
     expected = []
     tlast = 0
@@ -62,11 +111,12 @@ def behaviour_to_schedule(beh, mr, slow=False):
         tlast = max(tlast, at)
         if e0["k"] == "rx" and e0["cls"] == "req":
             steps.append({"at": at, "do": "rx", "r": e0["r"], "ty": e0["ty"], "code": 1, "mid": e0["mid"], "tok": e0["tok"],
-                          "observe": e0["obs"] if e0["obs"] >= 0 else None})
+                          "observe": e0["obs"] if e0["obs"] >= 0 else None, "q": e0["q"],
+                          "block2": None if e0["b2"] < 0 else [e0["b2"] >> 4, (e0["b2"] >> 3) & 1, e0["b2"] & 7]})
         elif e0["k"] == "rx":
             steps.append({"at": at, "do": "rx", "r": e0["r"], "ty": e0["ty"], "code": 0, "mid": {"notif": e0["n"]}})
         elif e0["k"] == "change":
-            steps.append({"at": at, "do": "change", "n": len([e for e in emit if e["k"] == "change"]), "x": e0["x"]})
+            steps.append({"at": at, "do": "change", "n": len([e for e in emit if e["k"] == "change"]), "x": e0["x"], "q": e0["q"]})
         elif e0["k"] == "release":
             steps.append({"at": at, "do": "release", "g": e0["g"]})
         elif e0["k"] == "err":
@@ -77,10 +127,14 @@ def behaviour_to_schedule(beh, mr, slow=False):
             expected.append(dict(e, t=e["t"] * 1024))
     sched = {
         "name": "model-behaviour",
-        "tuning": {"ACK_TIMEOUT": 1.0, "ACK_RANDOM_FACTOR": 1.0, "MAX_RETRANSMIT": mr},
+        # (the model's EmptyAckDelay is one tick = ACK_TIMEOUT)
+        "tuning": {"ACK_TIMEOUT": 1.0, "ACK_RANDOM_FACTOR": 1.0, "MAX_RETRANSMIT": mr, "EMPTY_ACK_DELAY": 1.0},
         "mid0": 100,
         "nremotes": 3,
         "rgate": bool(slow),
+        "fgate": conf.get("sfirst") == "TRUE",
+        "nonrender": conf.get("nonntf") == "TRUE",
+        "big": "app" if conf.get("big") == "TRUE" else None,
         "steps": steps,
         "horizon": None,
     }
@@ -91,7 +145,8 @@ def _key(e):
     mid = e["mid"]
     if (e["k"] == "tx" and e["ty"] in ("CON", "NON")) or (e["k"] == "rx" and e["ty"] in ("ACK", "RST")):
         mid = 0  # message IDs the server picks depend on the iteration order of the observer set
-    return (e["k"], e["r"], e["ty"], mid, e["tok"], e["cls"], e["code"], e["obs"], e["st"], e["g"], 0 if e["k"] == "rx" else e["n"], e["x"])
+    return (e["k"], e["r"], e["ty"], mid, e["tok"], e["cls"], e["code"], e["obs"], e["st"], e["g"], 0 if e["k"] == "rx" else e["n"], e["x"],
+            e["q"], e["b2"])
 
 
 def compare(expected, real, tlast):
@@ -126,10 +181,31 @@ def compare(expected, real, tlast):
 
 
 # -- targeted scenarios ------------------------------------------------------------
-def reg(r, tok, mid, ty="CON", at=0, observe=0, path=None):
+def reg(r, tok, mid, ty="CON", at=0, observe=0, path=None, q=None, block2=None):
     s = {"at": at, "do": "rx", "r": r, "ty": ty, "code": 1, "mid": mid, "tok": tok, "observe": observe}
     if path:
         s["path"] = path
+    if q:
+        s["q"] = q
+    if block2 is not None:
+        s["block2"] = list(block2)
+    return s
+
+
+def blk(r, tok, mid, num, at, ty="CON", szx=6, q=None):
+    """plain GET (no Observe) asking for block `num` of the representation"""
+    return reg(r, tok, mid, ty, at=at, observe=None, q=q, block2=(num, 0, szx))
+
+
+def chg(at, x="", n=1, q=None, xs=None):
+    s = {"at": at, "do": "change"}
+    if xs:
+        s["xs"] = list(xs)
+    else:
+        s["x"] = x
+        s["n"] = n
+    if q:
+        s["q"] = q
     return s
 
 
@@ -138,7 +214,8 @@ def ack(r, n, at, ty="ACK"):
 
 
 def base_scenarios():
-    T = {"ACK_TIMEOUT": 2.0, "ACK_RANDOM_FACTOR": 1.0, "MAX_RETRANSMIT": 2}
+    # (EMPTY_ACK_DELAY: 100 units, on the grid of the virtual clock like everything else)
+    T = {"ACK_TIMEOUT": 2.0, "ACK_RANDOM_FACTOR": 1.0, "MAX_RETRANSMIT": 2, "EMPTY_ACK_DELAY": 100 / 1024.0}
     S = []
 
     def mk(name, steps, reactions=(), **kw):
@@ -205,6 +282,84 @@ def base_scenarios():
     mk("shared-message-two-silent-con-observers", [reg(1, "a1", 1000), reg(2, "a2", 2000), {"at": 10, "do": "change", "x": "shared-ok"}, {"at": 30000, "do": "change"}],
        reactions=[{"r": 2, "nth": 2, "copy": 1, "delay": 5, "ty": "ACK"}, {"r": 1, "nth": 2, "copy": 1, "delay": 5, "ty": "ACK"}])
     mk("shared-unsuccessful-con-and-non", [reg(1, "a1", 1000), reg(2, "a2", 2000, "NON"), {"at": 10, "do": "change", "x": "shared-unsucc"}, ack(1, 1, 20), {"at": 30, "do": "change"}])
+    S.extend(extension_scenarios(T))
+    return S
+
+
+def extension_scenarios(T):
+    S = []
+    acks = lambda r, n=12, d=2: [{"r": r, "nth": i, "copy": 1, "delay": d, "ty": "ACK"} for i in range(1, n)]
+
+    def mk(name, steps, reactions=(), **kw):
+        S.append(dict({"name": name, "tuning": dict(T), "mid0": 300, "nremotes": 3, "steps": steps, "reactions": list(reactions), "horizon": None}, **kw))
+
+    # -- 1. representations of several blocks: notifications carry Observe and Block2; the other blocks are fetched
+    #       by plain GETs while the state changes
+    mk("big-app-blocks-fetched-on-other-tokens-racing-changes",
+       [reg(1, "a1", 1000), chg(10), blk(1, "c1", 1001, 1, 12), chg(14), blk(1, "c2", 1002, 2, 16, "NON"), ack(1, 1, 20), blk(1, "c1", 1003, 1, 22),
+        ack(1, 2, 30), chg(40), blk(1, "c3", 1004, 2, 40), blk(1, "c3", 1005, 1, 41, "NON"), ack(1, 3, 50)], big="app")
+    mk("big-app-block-fetched-on-the-registration-token-is-a-new-request",
+       [reg(1, "a1", 1000), chg(10), ack(1, 1, 12), blk(1, "a1", 1001, 1, 20), chg(30), chg(40)], big="app")
+    mk("big-app-queued-notification-then-block-fetch-on-the-token",
+       [reg(1, "a1", 1000), chg(10), chg(12), blk(1, "a1", 1001, 1, 14), ack(1, 1, 20), chg(30)], big="app")
+    mk("big-app-early-negotiation-and-later-block-with-observe",
+       [reg(1, "a1", 1000, block2=(0, 0, 5)), reg(2, "a2", 2000, "NON", at=1, block2=(1, 0, 6)), reg(3, "a3", 3000, at=2, block2=(9, 0, 6)), chg(10), chg(20, "ok"),
+        blk(1, "c1", 1001, 3, 22, szx=5), chg(30), blk(2, "a2", 2001, 0, 40, "NON"), chg(50)], reactions=acks(1) + acks(3), big="app")
+    mk("big-app-two-tokens-one-endpoint-block-fetch-while-sibling-queued",
+       [reg(1, "a1", 1000), reg(1, "b1", 1001, at=2), chg(10), blk(1, "c1", 1002, 1, 12), blk(1, "a1", 1003, 2, 13)], reactions=acks(1, d=20), big="app")
+    mk("big-lib-whole-representation-on-the-observe-path",
+       [reg(1, "a1", 1000), chg(10), blk(1, "c1", 1001, 1, 12), reg(1, "c1", 1002, at=13, observe=None), blk(1, "c1", 1003, 1, 14), chg(16), blk(1, "c1", 1004, 2, 18),
+        reg(2, "a2", 2000, "NON", at=20, block2=(0, 0, 4)), chg(30), blk(2, "a2", 2001, 1, 40, "NON", szx=4), chg(50)], reactions=acks(1), big="lib")
+    # -- 2. the first response as a separate response (first rendering slower than EMPTY_ACK_DELAY)
+    rel = lambda at, g: {"at": at, "do": "release", "g": g}
+    mk("separate-first-response-acked-change-in-the-window",
+       [reg(1, "a1", 1000), chg(10), rel(200, 1), ack(1, 1, 210), ack(1, 2, 220), chg(300), ack(1, 3, 310)], fgate=True)
+    mk("separate-first-response-answered-with-reset",
+       [reg(1, "a1", 1000), chg(10), rel(200, 1), ack(1, 1, 210, "RST"), chg(220), chg(5000)], fgate=True)
+    mk("separate-first-response-times-out", [reg(1, "a1", 1000), reg(1, "b1", 1001, "NON", at=1), rel(200, 1), rel(201, 2), chg(300), chg(30000)], fgate=True)
+    mk("separate-first-response-new-request-in-the-window",
+       [reg(1, "a1", 1000), chg(10), reg(1, "a1", 1001, at=50), chg(60), rel(300, 2), ack(1, 1, 310), ack(1, 2, 320), reg(1, "a1", 1002, "NON", at=400), reg(1, "a1", 1003, "NON", at=420, observe=1),
+        chg(500)], fgate=True)
+    mk("separate-first-response-non-request-inherits-the-pending-ack",
+       [reg(1, "a1", 1000), reg(1, "a1", 1001, "NON", at=20), rel(30, 2), chg(40), chg(500)], fgate=True)
+    mk("separate-first-response-last-and-unsuccessful-in-the-window",
+       [reg(1, "a1", 1000), reg(2, "a2", 2000, "NON", at=1), chg(10, "last"), rel(200, 1), rel(201, 2), reg(1, "a1", 1001, at=300), chg(310, "unsucc"), rel(500, 3), chg(600)],
+       reactions=acks(1), fgate=True)
+    mk("separate-first-response-error-and-shutdown-in-the-window",
+       [reg(1, "a1", 1000), reg(2, "a2", 2000, at=1), {"at": 20, "do": "err", "r": 1}, chg(30), {"at": 150, "do": "shutdown"}, chg(160)], fgate=True)
+    mk("separate-first-response-sleeping-renderer",
+       [reg(1, "a1", 1000), reg(2, "a2", 2000, "NON", at=1), chg(50), chg(120), chg(400)], reactions=acks(1), fdelay=150)
+    mk("separate-first-response-behind-open-exchange-of-sibling",
+       [reg(1, "a1", 1000), rel(5, 1), chg(10), reg(1, "b1", 1001, at=12), chg(20), {"at": 200, "do": "release", "r": 1, "tok": "b1"}, ack(1, 1, 300), ack(1, 2, 320, "RST"), chg(400)],
+       reactions=[{"r": 1, "nth": i, "copy": 1, "delay": 2, "ty": "ACK"} for i in range(3, 9)], fgate=True)
+    mk("separate-first-response-duplicate-request-datagrams",
+       [reg(1, "a1", 1000), reg(1, "a1", 1000, at=50), reg(1, "a1", 1000, at=150), rel(200, 1), reg(1, "a1", 1000, at=250), chg(300)], reactions=acks(1), fgate=True)
+    # -- 3. several resources, several observers per resource, endpoints sharing tokens / resources
+    mk("two-resources-four-registrations",
+       [reg(1, "a1", 1000, q=1), reg(2, "a2", 2000, "NON", at=1, q=2), reg(1, "b1", 1001, at=2, q=2), reg(3, "a3", 3000, at=3, q=1), chg(10, q=1), chg(12, q=2), chg(14, q=2, n=2),
+        ack(3, 1, 20, "RST"), chg(30, q=1), reg(1, "b1", 1002, at=40, observe=1, q=2), chg(50, q=2), chg(52, q=1)], reactions=acks(1))
+    mk("two-resources-last-and-unsuccessful-on-one-of-them",
+       [reg(1, "a1", 1000, q=1), reg(2, "a2", 2000, "NON", q=2, at=1), reg(3, "a3", 3000, q=2, at=2), chg(10, "last", q=2), chg(20, q=1), chg(22, q=2), reg(2, "a2", 2001, "NON", q=2, at=30),
+        chg(40, "unsucc", q=1), chg(50, q=2), chg(52, q=1)], reactions=acks(1) + acks(3))
+    mk("token-moves-to-the-other-resource",
+       [reg(1, "a1", 1000, q=1), chg(10, q=1), ack(1, 1, 12), reg(1, "a1", 1001, at=20, q=2), chg(30, q=1), chg(32, q=2), ack(1, 2, 34), reg(1, "a1", 1002, "NON", at=40, q=1), chg(50, q=2), chg(52, q=1)])
+    mk("two-resources-timeout-of-one-endpoint-spares-the-others",
+       [reg(1, "a1", 1000, q=1), reg(1, "b1", 1001, "NON", at=1, q=2), reg(2, "a2", 2000, at=2, q=1), reg(3, "a3", 3000, at=3, q=2), chg(10, q=1), chg(20000, q=1), chg(20002, q=2)],
+       reactions=acks(2) + acks(3))
+    # -- 4. Observe numbers across a re-registration on the same token: each registration on its own
+    mk("reregistration-on-the-same-token-numbers-judged-per-registration",
+       [reg(1, "a1", 1000), chg(10), chg(20), chg(30), reg(1, "a1", 1001, at=40), chg(50), chg(60), reg(1, "a1", 1002, "NON", at=70), chg(80), reg(1, "a1", 1003, "NON", at=90, observe=1), chg(100)],
+       reactions=acks(1))
+    # -- 5. non-confirmable notifications and the Reset that answers one
+    mk("reset-to-non-notification-of-a-confirmable-registration",
+       [reg(1, "a1", 1000), reg(2, "a2", 2000, at=1), chg(10), ack(1, 1, 15, "RST"), chg(20), chg(30)], nonrender=True)
+    mk("reset-to-the-non-first-response", [reg(1, "a1", 1000, "NON"), ack(1, 1, 5, "RST"), chg(10), chg(20)])
+    mk("reset-to-an-older-non-notification", [reg(1, "a1", 1000, "NON"), chg(10), chg(12), chg(14), ack(1, 2, 16, "RST"), chg(20)])
+    mk("reset-to-non-notification-of-the-previous-registration-on-the-token",
+       [reg(1, "a1", 1000, "NON"), chg(10), reg(1, "a1", 1001, "NON", at=12), ack(1, 2, 14, "RST"), chg(20), ack(1, 3, 22, "ACK"), chg(30)])
+    mk("reset-to-non-notification-while-the-next-rendering-is-suspended",
+       [reg(1, "a1", 1000, "NON"), chg(10), {"at": 11, "do": "release", "g": 1}, chg(12), ack(1, 2, 14, "RST"), {"at": 20, "do": "release", "g": 1}, chg(30)], rgate=True)
+    mk("reset-to-explicit-non-notification-two-tokens", [reg(1, "a1", 1000), reg(1, "b1", 1001, "NON", at=1), chg(10, "ok"), ack(1, 3, 12, "RST"), ack(1, 2, 14), chg(20), ack(1, 4, 25)])
     return S
 
 
@@ -212,10 +367,18 @@ def base_scenarios():
 def random_schedule(rng, idx):
     mr = rng.choice([1, 2, 2])
     nobs = rng.choice([1, 2, 2, 3])
+    # the dimensions added later, each in a residue class of its own so that the families overlap in all combinations
+    big = "app" if idx % 6 == 2 else ("lib" if idx % 12 == 5 else None)
+    fmode = ("gate" if idx % 10 == 4 else "sleep") if idx % 5 == 4 else None       # slow FIRST rendering
+    nonrender = idx % 7 == 6
+    tworesources = idx % 3 == 1
     regs = []
     for i in range(nobs):
         r = i + 1 if (i == 0 or rng.random() < 0.6) else rng.randint(1, i)      # 40 %: another token of an earlier endpoint
-        regs.append({"r": r, "tok": "%02x%02x" % (0xA0 + i, rng.randint(0, 255)), "ty": rng.choice(["CON", "CON", "NON"])})
+        regs.append({"r": r, "tok": "%02x%02x" % (0xA0 + i, rng.randint(0, 255)), "ty": rng.choice(["CON", "CON", "NON"]),
+                     "q": rng.choice([1, 2]) if tworesources else 1,
+                     "b2": (rng.choice([0, 0, 1, 3]), 0, rng.choice([4, 5, 6, 6])) if big and rng.random() < 0.25 else None})
+    qs = sorted({o["q"] for o in regs})
     pm = {}
 
     def nextmid(r):
@@ -227,7 +390,7 @@ def random_schedule(rng, idx):
     last_req = {}
     pending = list(regs)
     first = pending.pop(0)
-    s = reg(first["r"], first["tok"], nextmid(first["r"]), first["ty"], at=0)
+    s = reg(first["r"], first["tok"], nextmid(first["r"]), first["ty"], at=0, q=first["q"], block2=first["b2"])
     steps.append(s)
     last_req[id(first)] = s
     active = [first]
@@ -244,6 +407,8 @@ def random_schedule(rng, idx):
     for _ in range(rng.randint(3, 11)):
         t += rng.choice([0, 1, 1, 7, 40, 600, 2100, 4200, 9000])
         kinds = ["change"] * 6 + ["rereg", "dereg", "plain", "dup", "rstnth", "fresh"]
+        if big:
+            kinds += ["blk"] * 4
         if storm and not stormed:
             kinds += ["storm"] * 3
         if pending:
@@ -258,32 +423,49 @@ def random_schedule(rng, idx):
         if k == "change":
             p = rng.random()
             if p < 0.6:
-                steps.append({"at": t, "do": "change", "n": rng.choice([1, 1, 1, 2, 3]), "x": rng.choice(variants)})
+                steps.append({"at": t, "do": "change", "n": rng.choice([1, 1, 1, 2, 3]), "x": rng.choice(variants), "q": rng.choice(qs)})
             else:
-                steps.append({"at": t, "do": "change", "xs": [rng.choice(variants) for _ in range(rng.choice([2, 2, 3]))]})
+                steps.append({"at": t, "do": "change", "xs": [rng.choice(variants) for _ in range(rng.choice([2, 2, 3]))], "q": rng.choice(qs)})
         elif k == "storm":
             # 20-40 single changes (each one rendered) while, typically, an exchange with a slow acker is open
             stormed = True
+            sq = rng.choice(qs)
             for _i in range(rng.randint(20, 40)):
-                steps.append({"at": t, "do": "change"})
+                steps.append({"at": t, "do": "change", "q": sq})
                 t += rng.choice([0, 1, 1])
+        elif k == "blk":
+            # the observer fetches a block of the large representation with a plain GET: on a token it never used,
+            # on a token it used for such a fetch before, or (1 in 8) on the registration's own token
+            o = rng.choice(active)
+            p = rng.random()
+            if p < 0.125:
+                tok = o["tok"]
+            else:
+                fresh[0] += 0 if (p < 0.4 and fresh[0]) else 1
+                tok = "cc%02x" % fresh[0]
+            s = blk(o["r"], tok, nextmid(o["r"]), rng.choice([0, 1, 1, 2, 2, 5]), t, rng.choice(["CON", "NON"]), szx=rng.choice([4, 6, 6, 6]), q=o["q"])
+            steps.append(s)
+            if tok == o["tok"]:
+                last_req[id(o)] = s
         elif k == "fresh":
             # an unrelated request of an observing endpoint: plain GET on a token it never used
             o = rng.choice(active)
             fresh[0] += 1
             steps.append(reg(o["r"], "cc%02x" % fresh[0], nextmid(o["r"]), rng.choice(["CON", "NON"]), at=t, observe=None,
-                             path=["other"] if rng.random() < 0.5 else None))
+                             path=["other"] if rng.random() < 0.5 else None, q=o["q"]))
         elif k == "newobs":
             o = pending.pop(0)
-            s = reg(o["r"], o["tok"], nextmid(o["r"]), o["ty"], at=t)
+            s = reg(o["r"], o["tok"], nextmid(o["r"]), o["ty"], at=t, q=o["q"], block2=o["b2"])
             steps.append(s)
             last_req[id(o)] = s
             active.append(o)
         elif k in ("rereg", "dereg", "plain"):
             o = rng.choice(active)
             ty = rng.choice([o["ty"], o["ty"], "CON", "NON"])
+            # (one re-registration in five of a two-resource schedule moves the token to the other resource)
+            q = 3 - o["q"] if (k == "rereg" and tworesources and rng.random() < 0.2) else o["q"]
             s = reg(o["r"], o["tok"], nextmid(o["r"]), ty, at=t, observe={"rereg": 0, "dereg": 1, "plain": None}[k],
-                    path=["other"] if (k == "plain" and rng.random() < 0.4) else None)
+                    path=["other"] if (k == "plain" and rng.random() < 0.4) else None, q=q)
             steps.append(s)
             last_req[id(o)] = s
         elif k == "dup":
@@ -300,7 +482,7 @@ def random_schedule(rng, idx):
     # one schedule in four has a renderer that suspends after sampling the state (released by `release` steps
     # sprinkled between the other steps, the rest when the steps are over): changes land inside the rendering
     rgate = idx % 4 == 1
-    if rgate:
+    if rgate or fmode == "gate":
         out = []
         for st_ in steps:
             out.append(st_)
@@ -340,11 +522,15 @@ def random_schedule(rng, idx):
             # else: silence
     return {
         "name": "random",
-        "tuning": {"ACK_TIMEOUT": 2.0, "ACK_RANDOM_FACTOR": 1.0, "MAX_RETRANSMIT": mr},
+        "tuning": {"ACK_TIMEOUT": 2.0, "ACK_RANDOM_FACTOR": 1.0, "MAX_RETRANSMIT": mr, "EMPTY_ACK_DELAY": 100 / 1024.0},
         "mid0": rng.choice([0, 300, 65530, rng.randint(0, 65535)]),
         "nremotes": 3,
         "rdelay": 0 if rgate else rng.choice([0, 0, 0, 0, 6]),
         "rgate": rgate,
+        "fgate": fmode == "gate",
+        "fdelay": rng.choice([150, 150, 300]) if fmode == "sleep" else 0,
+        "nonrender": nonrender,
+        "big": big,
         "steps": steps,
         "reactions": reactions,
         "horizon": None,
@@ -358,24 +544,143 @@ def validate(wd, mr, traces, timeout=1500):
     with open(tf, "w") as f:
         json.dump(traces, f, separators=(",", ":"))
     tmpl = open(os.path.join(tlc.SPEC_DIR, "ObserveServerTrace.cfg.tmpl")).read()
-    wd.write("ObserveServerTrace-run-%d.cfg" % mr, tmpl % {"MaxRetransmit": mr})
+    wd.write("ObserveServerTrace-run-%d.cfg" % mr, tmpl % {"MaxRetransmit": mr, "NonLifetime": NON_LIFETIME})
     r = tlc.run(wd, "ObserveServerTrace.tla", "ObserveServerTrace-run-%d.cfg" % mr, workers=1, timeout=timeout, env={"TRACE_FILE": tf}, dfs=True, heap="8g")
     tlc.need_ok_run(r, "ObserveServerTrace validation")
     out = [None] * len(traces)
     for v in tlc.printed_values(r, "TRACE"):
-        _, tid, n, first, rstnon, causes = v
+        _, tid, n, first, rstnon, causes, nregs, resources, nex = v
         if n != len(traces[tid - 1]):
             raise MachineryError("ObserveServerTrace: trace %d consumed %d of %d events" % (tid, n, len(traces[tid - 1])))
-        out[tid - 1] = {"bad": {c: l for (c, l) in first}, "rstnon": rstnon, "causes": {tuple(c) for c in causes}}
+        out[tid - 1] = {"bad": {c: l for (c, l) in first}, "rstnon": rstnon, "causes": {tuple(c) for c in causes},
+                        "nregs": nregs, "resources": set(resources), "nex": nex}
     missing = [i for i, x in enumerate(out) if x is None]
     if missing:
         raise MachineryError("ObserveServerTrace: no verdict for traces %s\n%s" % (missing[:5], r.out[-2000:]))
     return out
 
 
+def tlc_many(wd, jobs, par, workers):
+    """Several TLC runs on ObserveServer.tla side by side (each through harness.tlc.run, each with its timeout):
+    jobs = [(cfg file, keyword arguments of tlc.run)] -> results in the order of the jobs."""
+    from concurrent.futures import ThreadPoolExecutor
+
+    def one(j):
+        kw = dict(j[1])
+        kw.setdefault("workers", workers)
+        return tlc.run(wd, "ObserveServer.tla", j[0], **kw)
+
+    with ThreadPoolExecutor(max(1, par)) as ex:
+        return list(ex.map(one, jobs))
+
+
+def signature_of(name, sched):
+    """Stable description of a finding: clause, end cause and type of the registering request plus the family of
+    the schedule; everything that follows from a Reset answering a NON notification (one known cause, whatever
+    the type of the request or the schedule) is named after that cause alone."""
+    if ":RstNon" in name or name.startswith("C08_EndsOnRstNon"):
+        return "%s|RstNon" % name.split(":")[0]
+    return "%s|%s" % (name, shape_of(sched))
+
+
+RSTNON_SIGNATURES = ["C08_EndsOnRstNon|RstNon", "C08_SilentAfterEnd|RstNon", "C08_CancelCallbackOnce|RstNon"]
+
+
 def shape_of(sched):
     shared = any(s.get("x", "").startswith("shared") or any(x.startswith("shared") for x in s.get("xs", ())) for s in sched["steps"])
     return "shared-message" if shared else "own-message"
+
+
+def measure_extension(scheds, results, verdicts):
+    """Counters of the later dimensions, measured on the recorded executions (no judgement: that is TLC's)."""
+    c = {k: 0 for k in (
+        "empty_acks_sent", "separate_first_responses_confirmable", "separate_first_responses_non", "separate_first_responses_answered_with_reset",
+        "separate_first_responses_timed_out", "state_changes_during_a_first_rendering", "new_requests_during_a_first_rendering",
+        "notifications_with_observe_and_block2", "whole_large_notifications_without_block2", "block_fetches_on_another_token_while_registered",
+        "block_fetches_on_the_registration_token", "state_changes_between_block_fetches_of_one_token", "registrations_with_block2_in_the_request",
+        "traces_with_two_resources_observed", "registrations_on_resource_1", "registrations_on_resource_2", "largest_observer_count_of_a_resource",
+        "re_registrations_on_the_same_token", "non_notifications_to_confirmable_registrations", "resets_answering_non_notifications",
+        "registrations_with_a_reset_to_a_non_notification", "traces_with_fgate_or_fdelay", "traces_with_big", "traces_with_nonrender")}
+    for sc, res, v in zip(scheds, results, verdicts):
+        ev = res["events"]
+        c["traces_with_fgate_or_fdelay"] += bool(sc.get("fgate") or sc.get("fdelay"))
+        c["traces_with_big"] += bool(sc.get("big"))
+        c["traces_with_nonrender"] += bool(sc.get("nonrender"))
+        c["traces_with_two_resources_observed"] += len(v["resources"]) >= 2
+        c["registrations_with_a_reset_to_a_non_notification"] += len([x for x in v["causes"] if x[0] == "RstNon"])
+        reg_of = {}          # g -> (r, tok, type of the registering request)
+        cur = {}             # (r, tok) -> g currently registered (by the callbacks)
+        rq = {}              # (r, tok) -> type of the latest request
+        held = set()         # (r, tok) that ever held a registration
+        first_pending = {}   # g -> True while its first response has not been sent
+        first_sep = {}       # (r, mid) -> g of a separate confirmable first response, copies
+        non_mids = {}        # (r, mid) -> g of NON responses of registrations
+        seen_req = set()
+        last_blk = {}        # (r, tok) -> number of changes when that token fetched a block last
+        nchanges = 0
+        for e in ev:
+            k = e["k"]
+            if k == "change":
+                nchanges += 1
+                c["state_changes_during_a_first_rendering"] += bool(first_pending)
+            elif k == "obscount":
+                c["largest_observer_count_of_a_resource"] = max(c["largest_observer_count_of_a_resource"], e["n"])
+            elif k == "accept":
+                key = (e["r"], e["tok"])
+                reg_of[e["g"]] = (e["r"], e["tok"], rq.get(key, "?"))
+                c["re_registrations_on_the_same_token"] += key in held
+                held.add(key)
+                cur[key] = e["g"]
+                first_pending[e["g"]] = True
+                c["registrations_on_resource_%d" % e["q"]] += e["q"] in (1, 2)
+            elif k == "cancelcb":
+                cur.pop((e["r"], e["tok"]), None)
+                first_pending.pop(e["g"], None)
+            elif k == "rx" and e["cls"] == "req":
+                if (e["r"], e["mid"]) in seen_req:
+                    continue
+                seen_req.add((e["r"], e["mid"]))
+                key = (e["r"], e["tok"])
+                rq[key] = e["ty"]
+                c["new_requests_during_a_first_rendering"] += cur.get(key) in first_pending
+                if e["b2"] >= 0 and e["obs"] == 0:
+                    c["registrations_with_block2_in_the_request"] += 1
+                if e["b2"] >= 0 and e["obs"] == -1:
+                    if key in cur:
+                        c["block_fetches_on_the_registration_token"] += 1
+                    elif any(r == e["r"] for (r, _t) in cur):
+                        c["block_fetches_on_another_token_while_registered"] += 1
+                    if key in last_blk and last_blk[key] != nchanges:
+                        c["state_changes_between_block_fetches_of_one_token"] += 1
+                    last_blk[key] = nchanges
+            elif k == "rx" and e["ty"] == "RST":
+                if (e["r"], e["mid"]) in first_sep:
+                    c["separate_first_responses_answered_with_reset"] += 1
+                    first_sep.pop((e["r"], e["mid"]))
+                if (e["r"], e["mid"]) in non_mids:
+                    c["resets_answering_non_notifications"] += 1
+            elif k == "rx" and e["ty"] == "ACK":
+                first_sep.pop((e["r"], e["mid"]), None)
+            elif k == "tx" and e["cls"] == "empty" and e["ty"] == "ACK":
+                c["empty_acks_sent"] += 1
+            elif k == "tx" and e["cls"] == "resp" and e["g"] in reg_of:
+                g = e["g"]
+                if first_pending.pop(g, None) and e["ty"] in ("CON", "NON") and reg_of[g][2] == "CON":
+                    c["separate_first_responses_confirmable" if e["ty"] == "CON" else "separate_first_responses_non"] += 1
+                    if e["ty"] == "CON":
+                        first_sep[(e["r"], e["mid"])] = [g, 0]
+                if (e["r"], e["mid"]) in first_sep:
+                    first_sep[(e["r"], e["mid"])][1] += 1
+                if e["ty"] == "NON":
+                    non_mids[(e["r"], e["mid"])] = g
+                    c["non_notifications_to_confirmable_registrations"] += reg_of[g][2] == "CON"
+                if e["obs"] >= 0 and e["b2"] >= 0:
+                    c["notifications_with_observe_and_block2"] += 1
+                if e["obs"] >= 0 and e["b2"] < 0 and sc.get("big") == "lib" and e["x"] == "S":
+                    c["whole_large_notifications_without_block2"] += 1
+        mr = sc["tuning"]["MAX_RETRANSMIT"]
+        c["separate_first_responses_timed_out"] += len([1 for (_g, copies) in first_sep.values() if copies == mr + 1])
+    return c
 
 
 def replay(rep, args):
@@ -390,7 +695,7 @@ def replay(rep, args):
     for e in res["events"]:
         print("   ", short(e))
     for name in sorted(v["bad"]):
-        rep.violation(name.split(":")[0], "%s|%s" % (name, shape_of(sched)),
+        rep.violation(name.split(":")[0], signature_of(name, sched),
                       "clause %s false at event %d of the replayed execution (%d events)" % (name, v["bad"][name], len(res["events"])),
                       {"schedule": sched, "events": res["events"], "meta": res["meta"], "clause_at": v["bad"]})
     rep.coverage.update({"states": 0, "transitions": 0, "traces_validated_against_impl": 1, "replayed": args.replay, "samples": []})
@@ -407,13 +712,13 @@ def work(rep, args):
         # gets the larger budget; two separate endpoints hardly interact)
         mc_confs = [dict(mr=1, nobs=2, chg=2, env=3, sil=2, maxt=4, shared="TRUE"), dict(mr=1, nobs=2, chg=2, env=2, sil=2, maxt=4),
                     dict(mr=1, nobs=1, chg=3, env=3, sil=2, maxt=4),
-                    dict(mr=1, nobs=2, chg=2, env=2, sil=2, maxt=4, slow="TRUE", shared="TRUE"), dict(mr=1, nobs=1, chg=3, env=2, sil=2, maxt=4, slow="TRUE")]
-        nsim, nslow, nrand = 90, 60, 320
+                    dict(mr=1, nobs=2, chg=2, env=2, sil=2, maxt=4, slow="TRUE", shared="TRUE"), dict(mr=1, nobs=1, chg=3, env=2, sil=2, maxt=4, slow="TRUE")] + QUICK_EXT_CONFS
+        nsim, nslow, nrand, next_ = 90, 60, 320, 80
     else:
         mc_confs = [dict(mr=1, nobs=2, chg=3, env=3, sil=2, maxt=4, shared="TRUE"), dict(mr=1, nobs=2, chg=2, env=3, sil=2, maxt=4),
                     dict(mr=2, nobs=1, chg=3, env=3, sil=3, maxt=8),
-                    dict(mr=1, nobs=2, chg=3, env=2, sil=2, maxt=4, slow="TRUE", shared="TRUE"), dict(mr=1, nobs=1, chg=3, env=3, sil=2, maxt=4, slow="TRUE")]
-        nsim, nslow, nrand = 1000, 600, 5000
+                    dict(mr=1, nobs=2, chg=3, env=2, sil=2, maxt=4, slow="TRUE", shared="TRUE"), dict(mr=1, nobs=1, chg=3, env=3, sil=2, maxt=4, slow="TRUE")] + THOROUGH_EXT_CONFS
+        nsim, nslow, nrand, next_ = 1000, 600, 5000, 800
     phases = {}
     t0 = [time.time()]
 
@@ -422,20 +727,31 @@ def work(rep, args):
         t0[0] = time.time()
 
     with tlc.Workdir() as wd:
-        # 1. exhaustive, repaired design
-        mcs = []
+        # 1. exhaustive, repaired design; 1b-1e. the model variants that must be refuted.  The TLC runs are
+        # independent of each other: a few of them side by side (the big ones first)
+        cexc = dict(mr=1, nobs=1, chg=2, env=3, sil=2, maxt=4)      # 1b. the pinned tree's variant (queued notifications survive)
+        badc = dict(mr=1, nobs=1, chg=2, env=1, sil=2, maxt=4)      # 1c. trigger slot re-armed only after the rendering
+        capc = dict(mr=1, nobs=1, chg=3, env=1, sil=2, maxt=4)      # 1d. bounded backlog dropping the newest
+        rnc = dict(mr=1, nobs=1, chg=2, env=2, sil=2, maxt=4)       # 1e. a Reset answering a NON notification is ignored
+        jobs = []
         for i, c in enumerate(mc_confs):
-            wd.write("ObserveServer_mc%d.cfg" % i, MC_CFG % dict(dict(slow="FALSE", rearm="TRUE", shared="FALSE", cap=0), **dict(c, drop="TRUE", extra=INVS)))
-            mc = tlc.run(wd, "ObserveServer.tla", "ObserveServer_mc%d.cfg" % i, timeout=600 if quick else 3000)
+            wd.write("ObserveServer_mc%d.cfg" % i, mc_cfg(c))
+            jobs.append(("ObserveServer_mc%d.cfg" % i, dict(timeout=900 if quick else 3000)))
+        for name, c, over in (("pinned", cexc, dict(drop="FALSE")), ("rearm", badc, dict(slow="TRUE", rearm="FALSE")), ("cap", capc, dict(cap=1)),
+                              ("rstnon", rnc, dict(rstnon="FALSE"))):
+            wd.write("ObserveServer_%s.cfg" % name, mc_cfg(c, **over))
+            jobs.append(("ObserveServer_%s.cfg" % name, dict(timeout=900)))
+        ncpu = os.cpu_count() or 4
+        par = 6 if quick else 2
+        res_all = tlc_many(wd, jobs, par, max(2, ncpu // par))
+        mcs = res_all[:len(mc_confs)]
+        mcp, mcb, mcc, mcr = res_all[len(mc_confs):]
+        for c, mc in zip(mc_confs, mcs):
             tlc.need_ok_run(mc, "ObserveServer model check %s" % c)
             if mc.violated:
                 raise MachineryError("ObserveServer model (repaired design, %s) violates %s" % (c, mc.violated))
-            mcs.append(mc)
         lap("model_check")
-        # 1b. the pinned tree's variant: TLC's counterexample, replayed below
-        cexc = dict(mr=1, nobs=1, chg=2, env=3, sil=2, maxt=4)
-        wd.write("ObserveServer_pinned.cfg", MC_CFG % dict(cexc, drop="FALSE", slow="FALSE", rearm="TRUE", shared="FALSE", cap=0, extra=INVS))
-        mcp = tlc.run(wd, "ObserveServer.tla", "ObserveServer_pinned.cfg", timeout=600)
+        # 1b. TLC's counterexample of the pinned tree's variant, replayed below
         tlc.need_ok_run(mcp, "ObserveServer model check (pinned variant)")
         if not (mcp.violated and mcp.error_trace):
             raise MachineryError("the pinned-tree variant of the model is expected to violate NoBad; TLC says %s" % mcp.violated)
@@ -445,48 +761,65 @@ def work(rep, args):
         if "error" in cex_res:
             raise MachineryError("driver failed on the counterexample schedule\n%s" % cex_res["error"])
         pinned_like = compare(cex_exp, cex_res["events"], cex_tlast) is None
-        # 1c. known-bad variant: the trigger slot re-armed only after the rendering.  TLC has to find
-        # C08_LatestEventuallySent false (otherwise the window "change while the renderer is suspended" is not
-        # explored); its counterexample is run on the real code like any other schedule
-        badc = dict(mr=1, nobs=1, chg=2, env=1, sil=2, maxt=4)
-        wd.write("ObserveServer_rearm.cfg", MC_CFG % dict(badc, drop="TRUE", slow="TRUE", rearm="FALSE", shared="FALSE", cap=0, extra=INVS))
-        mcb = tlc.run(wd, "ObserveServer.tla", "ObserveServer_rearm.cfg", timeout=600)
+        # 1c. TLC has to find C08_LatestEventuallySent false (otherwise the window "change while the renderer is
+        # suspended" is not explored); its counterexample is run on the real code like any other schedule
         tlc.need_ok_run(mcb, "ObserveServer model check (re-arm-after-render variant)")
         badset = mcb.error_trace[-1][1].get("obs", {}).get("bad", ()) if mcb.error_trace else ()
         if not any(str(c).startswith("C08_LatestEventuallySent") for c in badset):
             raise MachineryError("the re-arm-after-render variant of the model is expected to violate C08_LatestEventuallySent; TLC says %s %s" % (mcb.violated, sorted(badset)))
         rearm_sched, rearm_exp, rearm_tlast = behaviour_to_schedule(list(mcb.error_trace), 1, slow=True)
         rearm_sched["name"] = "model-counterexample-rearm-after-render"
-        # 1d. known-bad variant: a bounded backlog that drops the newest notification when it is full
-        capc = dict(mr=1, nobs=1, chg=3, env=1, sil=2, maxt=4)
-        wd.write("ObserveServer_cap.cfg", MC_CFG % dict(capc, drop="TRUE", slow="FALSE", rearm="TRUE", shared="FALSE", cap=1, extra=INVS))
-        mcc = tlc.run(wd, "ObserveServer.tla", "ObserveServer_cap.cfg", timeout=600)
+        # 1d.
         tlc.need_ok_run(mcc, "ObserveServer model check (bounded-backlog variant)")
         capset = mcc.error_trace[-1][1].get("obs", {}).get("bad", ()) if mcc.error_trace else ()
         if not any(str(c).startswith("C08_LatestEventuallySent") for c in capset):
             raise MachineryError("the bounded-backlog variant of the model is expected to violate C08_LatestEventuallySent; TLC says %s %s" % (mcc.violated, sorted(capset)))
+        # 1e. TLC has to find C08_EndsOnRstNon false; its counterexample is executed on the real code (a tree that
+        # ignores such Resets follows it event by event, and the clause is then false on the real trace as well)
+        tlc.need_ok_run(mcr, "ObserveServer model check (Reset-to-NON-ignored variant)")
+        rnset = mcr.error_trace[-1][1].get("obs", {}).get("bad", ()) if mcr.error_trace else ()
+        if not any(str(c).startswith("C08_EndsOnRstNon") for c in rnset):
+            raise MachineryError("the Reset-to-NON-ignored variant of the model is expected to violate C08_EndsOnRstNon; TLC says %s %s" % (mcr.violated, sorted(rnset)))
+        rn_sched, rn_exp, rn_tlast = behaviour_to_schedule(list(mcr.error_trace), 1)
+        rn_sched["name"] = "model-counterexample-reset-to-non-ignored"
+        rn_res = run_all([rn_sched])[0]
+        if "error" in rn_res:
+            raise MachineryError("driver failed on the counterexample schedule\n%s" % rn_res["error"])
+        rstnon_ignored = compare(rn_exp, rn_res["events"], rn_tlast) is None
         lap("pinned_variant")
         # 2. behaviours of the variant the tree conforms to
         simc = dict(mr=1, nobs=2, chg=3, env=6, sil=3, maxt=8)
         model = []
-        for tag, slow, shared, num in (("fast", False, False, nsim // 2), ("shared", False, True, nsim - nsim // 2),
-                                       ("slow", True, False, nslow // 2), ("slowshared", True, True, nslow - nslow // 2)):
-            wd.write("ObserveServer_sim_%s.cfg" % tag, MC_CFG % dict(simc, drop="FALSE" if pinned_like else "TRUE",
-                                                                       slow="TRUE" if slow else "FALSE", rearm="TRUE",
-                                                                       shared="TRUE" if shared else "FALSE", cap=0, extra=""))
+        T, F = "TRUE", "FALSE"
+        sims = [("fast", dict(), nsim // 2), ("shared", dict(shared=T), nsim - nsim // 2),
+                ("slow", dict(slow=T), nslow // 2), ("slowshared", dict(slow=T, shared=T), nslow - nslow // 2),
+                # the later dimensions, combined: separate first responses on two resources / with two tokens of one
+                # endpoint and every rendering suspended; large representations with NON notifications on two
+                # resources / with separate first responses
+                ("first2res", dict(sfirst=T, two=T), next_ // 4), ("firstshared", dict(sfirst=T, shared=T, slow=T), next_ // 4),
+                ("bignon2res", dict(big=T, nonntf=T, two=T), next_ // 4), ("bigfirst", dict(big=T, sfirst=T, shared=T), next_ - 3 * (next_ // 4))]
+        nsim_by_kind = {}
+        sjobs = []
+        for tag, over, num in sims:
+            conf = dict(simc, drop=F if pinned_like else T, rstnon=F if rstnon_ignored else T, extra="", **over)
+            wd.write("ObserveServer_sim_%s.cfg" % tag, mc_cfg(conf))
             simdir = wd.file("sim_" + tag)
             os.makedirs(simdir)
-            sim = tlc.run(wd, "ObserveServer.tla", "ObserveServer_sim_%s.cfg" % tag, workers=1, timeout=900,
-                          simulate="file=%s/tr,num=%d" % (simdir, num), depth=45, seed=seed + 1)
-            tlc.need_ok_run(sim, "ObserveServer simulation (%s renderer)" % tag)
-            model += [behaviour_to_schedule(b, 1, slow) for b in tlc.read_sim_traces(os.path.join(simdir, "tr"))]
+            sjobs.append(("ObserveServer_sim_%s.cfg" % tag, dict(workers=1, timeout=900, simulate="file=%s/tr,num=%d" % (simdir, num), depth=45, seed=seed + 1)))
+        for (tag, over, num), sim in zip(sims, tlc_many(wd, sjobs, 8 if quick else 4, 1)):
+            tlc.need_ok_run(sim, "ObserveServer simulation (%s)" % tag)
+            conf = dict(simc, **over)
+            got = [behaviour_to_schedule(b, 1, over.get("slow") == T, conf) for b in tlc.read_sim_traces(os.path.join(wd.file("sim_" + tag), "tr"))]
+            nsim_by_kind[tag] = len([m for m in got if m[0]["steps"]])
+            model += got
         lap("simulate")
         model = [m for m in model if m[0]["steps"]]
         nslow_model = len([m for m in model if m[0]["rgate"]])
         bases = base_scenarios()
         rands = [random_schedule(rng, i) for i in range(nrand)]
-        scheds = [cex_sched] + [m[0] for m in model] + bases + rands + [rearm_sched]
+        scheds = [cex_sched] + [m[0] for m in model] + bases + rands + [rn_sched, rearm_sched]
         results = [cex_res] + run_all(scheds[1:])
+        results[-2] = rn_res
         for s, res in zip(scheds, results):
             if "error" in res:
                 raise MachineryError("driver failed on schedule %s\n%s" % (json.dumps(s)[:600], res["error"]))
@@ -508,6 +841,10 @@ def work(rep, args):
                 verdicts[i] = v
         lap("trace_validation")
         max_obs = max([e["obs"] for res in results for e in res["events"] if e["k"] == "tx"] + [0])
+        for sc, res in zip(scheds, results):
+            if any(e["t"] < 0 for e in res["events"]):
+                raise MachineryError("an event off the grid of the virtual clock in schedule %s" % json.dumps(sc)[:400])
+        ext = measure_extension(scheds, results, verdicts)
         clause_hits = {}
         causes_seen = {}
         rstnon = 0
@@ -527,7 +864,7 @@ def work(rep, args):
                 at = v["bad"][name]
                 rep.violation(
                     clause,
-                    "%s|%s" % (name, shape_of(scheds[i])),
+                    signature_of(name, scheds[i]),
                     "clause %s false at event %d of a recorded execution (%d events, scenario %s): ... %s; loop exceptions %s"
                     % (name, at, len(ev), scheds[i].get("name"), " / ".join(short(e).strip() for e in ev[max(0, at - 3):at]), results[i]["meta"]["loop_exceptions"][:1]),
                     {"schedule": scheds[i], "events": ev, "meta": results[i]["meta"], "clause_at": v["bad"]},
@@ -540,7 +877,22 @@ def work(rep, args):
                              % (mcp.violated, sorted(verdicts[0]["bad"])))
         else:
             rep.notes.append("TLC's counterexample of the pinned-tree model variant does not reproduce: the tree drops queued notifications of an ended registration (repaired design)")
-        if not rep.violations:
+        rn_reproduced = bool(verdicts[-2]["bad"])
+        if rstnon_ignored and not rn_reproduced:
+            raise MachineryError("the implementation follows the Reset-to-NON-ignored variant's counterexample event by event but no clause is false on the real trace")
+        if rn_reproduced:
+            rep.notes.append("TLC's counterexample of the model variant that ignores a Reset answering a NON notification (%s) reproduces on the implementation: %s"
+                             % (sorted(str(c) for c in rnset), sorted(verdicts[-2]["bad"])))
+        # (vacuity guards apply unless something other than the known Reset-to-NON finding was found)
+        others = [v for v in rep.violations if v.signature not in RSTNON_SIGNATURES]
+        if not others:
+            thin = [k for k in ("separate_first_responses_confirmable", "separate_first_responses_answered_with_reset", "separate_first_responses_timed_out",
+                                "notifications_with_observe_and_block2", "block_fetches_on_another_token_while_registered", "block_fetches_on_the_registration_token",
+                                "state_changes_between_block_fetches_of_one_token", "traces_with_two_resources_observed", "registrations_on_resource_2",
+                                "re_registrations_on_the_same_token", "non_notifications_to_confirmable_registrations", "registrations_with_a_reset_to_a_non_notification")
+                    if not ext.get(k)]
+            if thin:
+                raise MachineryError("behaviours of the extension never exercised on the implementation: %s" % thin)
             kinds = {c.split(":")[0] for c in causes_seen}
             miss = [c for c in CAUSES if c not in kinds]
             if miss:
@@ -559,6 +911,12 @@ def work(rep, args):
                 "events_validated": nevents,
                 "schedules_from_model_behaviours": len(model),
                 "of_which_with_suspending_renderer": nslow_model,
+                "schedules_from_model_behaviours_by_kind": nsim_by_kind,
+                "reset_to_non_ignored_variant_check": dict(rnc, violated=mcr.violated, states=mcr.distinct, clauses=sorted(str(c) for c in rnset),
+                                                           implementation_follows_it=rstnon_ignored, reproduced_on_implementation=rn_reproduced),
+                "extension": ext,
+                "registrations_judged": sum(v["nregs"] for v in verdicts),
+                "separate_responses_tracked": sum(v["nex"] for v in verdicts),
                 "rearm_after_render_variant_check": dict(badc, violated=mcb.violated, states=mcb.distinct, clauses=sorted(str(c) for c in badset),
                                                          reproduced_on_implementation=bool(verdicts[-1]["bad"])),
                 "random_schedules_with_suspending_renderer": len([x for x in rands if x.get("rgate")]),
@@ -569,7 +927,7 @@ def work(rep, args):
                 "largest_observe_value_on_the_wire": max_obs,
                 "bounded_backlog_variant_check": dict(capc, violated=mcc.violated, states=mcc.distinct, clauses=sorted(str(c) for c in capset)),
                 "end_causes_exercised_on_impl": dict(sorted(causes_seen.items())),
-                "resets_to_non_notifications_recorded_not_judged": rstnon,
+                "traces_with_a_reset_to_a_non_notification": rstnon,
                 "clauses_false_somewhere": clause_hits,
                 "samples": [
                     {"schedule": model[0][0] if model else None, "events": [short(e) for e in (results[1]["events"][:18] if model else [])]},
@@ -587,7 +945,9 @@ def work(rep, args):
             "observers do not reuse a message ID for a different request; repeated request datagrams arrive within EXCHANGE_LIFETIME",
             "registrations are short: at most about 75 notifications per registration are generated (largest Observe value of this run: coverage.largest_observe_value_on_the_wire), so faults of the Observe counter that need more (wrap-around at 2^16 / 2^24, clamping) are out of reach of this check",
             "the resource's set of observations is replaced by a container with the same interface that iterates in registration order (reproducible serving order)",
-            "a Reset answering a non-confirmable notification is recorded, not judged (DESIGN section 10); retransmissions of an already sent notification are not 'further notifications'",
+            "a Reset answering a non-confirmable notification counts when it arrives within NON_LIFETIME (145 s) of that notification and the message ID has not been used for another separate response to that endpoint since (always so in the schedules); retransmissions of an already sent notification are not 'further notifications'",
+            "the first response of a registration is its first notification (RFC 7641 section 3.2): Reset / time-out of a separate first response end the registration",
+            "Block2 options are recorded, never judged; large representations are cut by the test resource itself ('app') or left to the library ('lib': the Observe path sends them whole)",
         ]
 
 
